@@ -102,7 +102,12 @@ def rewriteRef (fix : List (Str × Str)) (r : Ref) : Ref :=
     | none => r
   else r
 
-/-- `__register_stylename` (called for `style:style` only) -/
+/-- `__register_stylename` (called for `style:style` only).  Since fe6d0ae / 29f2068 the collision test is
+    `self.__registered_style(name) not in (None, elt)`: the entry of `_styles_dict` counts only while its style is
+    attached to this document, still bears the name and sits in office:styles / office:automatic-styles.  During
+    `load` every entry satisfies this (nothing is renamed or moved after it was registered) and `elt` is new, so
+    the test is `name in _styles_dict`.  The new name is the single 'M'+name (the search for a free name,
+    a298761, was withdrawn: it broke two families under one name in styles.xml). -/
 def register (st : LState) (d : Def) : LState × Def :=
   if d.isStyle then
     if d.name ∈ st.dict then
